@@ -59,6 +59,16 @@ CHECKS = {
         note="Path values avoid '/', '?', '#', '%' and dot segments; date-time path parameters, `default` values and union-typed bodies are outside the domain (ambiguous statement / C14); null members of JSON bodies may be omitted.",
         design="§5 C04",
     ),
+    "C05": dict(
+        category="exploration",
+        technique="Hypothesis-constructed operations x every declared 2xx status x declared media type x conforming bodies (JSON documents from the independent schema model, text, bytes, 0..4 JSON events for streams) answered by an in-memory server; oracle on the returned value: instance of the annotated return type, re-serialisation equals the body (C03 relation), None / text / bytes / ordered stream items",
+        text="About 2 200 (operation, status, media, body) cases per quick run. 3 root causes repaired (missing import on secondary/"
+             "multi-media branches, text/plain parsed as JSON, plus the default-with-content fix shared with C06); 6 open findings "
+             "(secondary 2xx, ndjson, same-typed multi-media, formatted primitives, unconstrained schema, digit-leading operationId) "
+             "are excluded by construction with counts.",
+        note="Unions belong to C14; stream payloads are one JSON object per event; the return annotation is obtained with typing.get_type_hints; masked: defects that need an excluded trigger.",
+        design="§5 C05",
+    ),
     "C06": dict(
         category="exploration",
         technique="generated operations x EVERY status 100..199 and 300..599 (exhaustive axis) x {bundled HttpxTransport over MockTransport, custom transport returning responses unraised}; oracle on the raised exception's class, status_code and response",
